@@ -130,6 +130,13 @@ def replay_helpers(fl, FA, vals=None, **kw):
             out.append(f"import_statement() inside context(alias='fl') is {stmt!r}")
         if close:
             out.append(f"Op.is_close(1.0, 1.0005) is True inside context(atol=1e-6, rtol=0) [alias {alias!r}]")
+    # the temporary tolerances keep their roles: atol absolute, rtol relative
+    with S.context(atol=0.5, rtol=0.0):
+        if not bool(fl.Op.is_close(0.0, 0.4)) or bool(fl.Op.is_close(100.0, 110.0)):
+            out.append(f"inside context(atol=0.5, rtol=0): is_close(0.0, 0.4) = {bool(fl.Op.is_close(0.0, 0.4))} (expected True), is_close(100.0, 110.0) = {bool(fl.Op.is_close(100.0, 110.0))} (expected False)")
+    with S.context(atol=0.0, rtol=0.5):
+        if not bool(fl.Op.is_close(110.0, 100.0)) or bool(fl.Op.is_close(0.4, 0.0)):
+            out.append(f"inside context(atol=0, rtol=0.5): is_close(110.0, 100.0) = {bool(fl.Op.is_close(110.0, 100.0))} (expected True), is_close(0.4, 0.0) = {bool(fl.Op.is_close(0.4, 0.0))} (expected False)")
     if rep is not None and hasattr(rep, "import_statement"):
         with S.context(alias="fl"):
             again = rep.import_statement()
